@@ -260,6 +260,16 @@ func (e *bEngine) runPath(st *bState, work *[]*bState, atReturn func(st *bState,
 				e.endPath(pe.why)
 				return
 			}
+			if _, ok := r.(verifError); ok {
+				// an unsupported construct on an infeasible path is harmless: ask the solver
+				o := &Obligation{Name: e.name + "/feasibility", Func: e.name, Kind: "feasibility", Goal: TFalse, Native: true}
+				o.Assume = append([]*Term(nil), st.path...)
+				o.Discharge(3)
+				if o.Status == "unsat" {
+					e.endPath("infeasible path pruned")
+					return
+				}
+			}
 			panic(r)
 		}
 	}()
@@ -299,7 +309,12 @@ func (e *bEngine) runPath(st *bState, work *[]*bState, atReturn func(st *bState,
 			id := st.nextID
 			et := deref(x.Type())
 			o := &bObject{id: id, typ: et}
-			o.root = e.zeroVal(et)
+			if at, ok := et.Underlying().(*types.Array); ok {
+				// arrays are array objects so that they can be sliced (variadic argument packs)
+				o.typ, o.arr, o.elems = at.Elem(), true, map[string]bVal{}
+			} else {
+				o.root = e.zeroVal(et)
+			}
 			st.objs[id] = o
 			fr.vals[x] = bPtr{obj: id}
 		case *ssa.FieldAddr:
@@ -420,6 +435,18 @@ func (e *bEngine) runPath(st *bState, work *[]*bState, atReturn func(st *bState,
 					n.len = hi
 				}
 				fr.vals[x] = n
+			case bPtr:
+				o := e.obj(st, b.obj)
+				at, isArr := deref(x.X.Type()).Underlying().(*types.Array)
+				if !o.arr || b.path != "" || !isArr {
+					panic(verr("Slice of %s", describeVal(v)))
+				}
+				n := bSlice{arr: b.obj, len: ConstI(at.Len())}
+				if x.High != nil {
+					hi, _ := asScalar(e.get(st, fr, x.High))
+					n.len = hi
+				}
+				fr.vals[x] = n
 			default:
 				panic(verr("Slice of %s", describeVal(v)))
 			}
@@ -461,9 +488,9 @@ func (e *bEngine) runPath(st *bState, work *[]*bState, atReturn func(st *bState,
 				f.pc = 0
 			}
 			switch {
-			case c.IsTrue():
+			case c.IsTrue() || st.seen[c.Key()]:
 				tgt(st, 0)
-			case c.IsFalse():
+			case c.IsFalse() || st.seen[Not(c).Key()]:
 				tgt(st, 1)
 			default:
 				other := st.clone()
